@@ -41,9 +41,18 @@ pub fn run(seed: u64, count: usize, _thorough: bool, out: &mut Out, tmp: &str) {
         let mut recs = pdbgen::records(&mut rng, &cfg);
         // hydrogens anywhere, including first
         if i % 2 == 0 {
-            if let Some(pdbgen::Rec::Atom(a)) = recs.iter_mut().find(|r| matches!(r, pdbgen::Rec::Atom(_))) {
-                a.element = "H".into();
-                a.name = "H".into();
+            // the first atom of every model (the models have to keep corresponding)
+            let mut first = true;
+            for r in recs.iter_mut() {
+                match r {
+                    pdbgen::Rec::Model(_) => first = true,
+                    pdbgen::Rec::Atom(a) if first => {
+                        a.element = "H".into();
+                        a.name = "H".into();
+                        first = false;
+                    }
+                    _ => {}
+                }
             }
         }
         let text = pdbgen::text(&mut rng, &recs);
@@ -52,6 +61,7 @@ pub fn run(seed: u64, count: usize, _thorough: bool, out: &mut Out, tmp: &str) {
         for opts in 0..8usize {
             let (obs, pdb) = read_obs_format(text.as_bytes(), Format::Pdb, opts, 2);
             out.case("C15", call("readpdb", vec![z(opts as i128), z(2), s(&text)]), obs, "corr:reader-model", true);
+            out.case("C15", call("pdbaccept", vec![z(opts as i128), l(recs.iter().map(pdbgen::rec_sx).collect())]), y(if pdb.is_some() { "accepted" } else { "rejected" }), "prop:pdb-options-accept", true);
             match pdb {
                 Some(p) => {
                     out.case("C15", call("pdbfilter", vec![z(opts as i128), l(recs.iter().map(pdbgen::rec_sx).collect())]), structure(&p), "prop:pdb-options-filter", opts != 0);
@@ -85,6 +95,7 @@ pub fn run(seed: u64, count: usize, _thorough: bool, out: &mut Out, tmp: &str) {
         for opts in 0..8usize {
             let (obs, pdb) = read_obs_format(text.as_bytes(), Format::Mmcif, opts, 2);
             out.case("C15", call("readcif", vec![z(opts as i128), z(2), s(&text)]), obs, "corr:reader-model", true);
+            out.case("C15", call("cifaccept", vec![z(opts as i128), cifgen::doc_sx(&d)]), y(if pdb.is_some() { "accepted" } else { "rejected" }), "prop:cif-options-accept", true);
             match pdb {
                 Some(p) => {
                     out.case("C15", call("ciffilter", vec![z(opts as i128), cifgen::doc_sx(&d)]), structure(&p), "prop:cif-options-filter", opts != 0);
